@@ -91,19 +91,21 @@ theorem RU.withScope {M : Exc} (env : Env) (scope : Str) {g g' : Gen} (hg : RU M
 
 theorem RU.kwRef {M : Exc} (env : Env) {rec rec' : Rec} (hrec : ∀ i s, RU M (rec i s) (rec' i s))
     (ref inst : Json) : RU M (kwRef env rec ref inst) (kwRef env rec' ref inst) := by
+  refine kwRef_cases₂ (R := RU M) (fun hg hh => ?_) (fun r => ?_) (RU.refl _ _) (RU.refl _ _) ref
+  · intro b st
+    unfold ifTopEmpty
+    split
+    · exact hg b st
+    · exact hh b st
   intro b st
-  unfold JS.kwRef
-  cases ref with
-  | str r =>
-    dsimp only
-    rcases resolve env r st with ⟨r1, st1⟩
-    cases r1 with
-    | ok p =>
-      obtain ⟨url, target⟩ := p
-      exact RU.withScope env url (hrec inst target) b st1
-    | raise e => right; rfl
-    | miss q => right; rfl
-  | _ => right; rfl
+  rw [kwRef_str, kwRef_str]
+  rcases resolve env r st with ⟨r1, st1⟩
+  cases r1 with
+  | ok p =>
+    obtain ⟨url, target⟩ := p
+    exact RU.withScope env url (hrec inst target) b st1
+  | raise e => right; rfl
+  | miss q => right; rfl
 
 theorem closed₂_RU (env : Env) (M : Exc) : Closed₂ env (RU M) where
   emit := fun _ => RU.refl _ _
@@ -1305,8 +1307,7 @@ omit hrec in
 theorem G_kwRef {rec : Rec} (hall : ∀ i t, SI A (rec i t)) (r : Str) (inst : Json) :
     SI A (kwRef env rec (.str r) inst) := by
   intro b st
-  unfold kwRef
-  dsimp only
+  rw [kwRef_str]
   split
   · exact SI_withScope hA _ (hall _ _) _ _
   · rename_i e st1 hr
